@@ -13,7 +13,9 @@
 // stdout per case:
 //   CASE <id>
 //   ...lines written by the child (L0, PRE, OP, EV, OPR, V, RL, PROBE, DONE)...
-//   END <id> status=<exit|signal|timeout> code=<n> stderr=<hex of the first bytes of the child's stderr>
+//   END <id> status=<exit|signal|timeout|walltimeout> code=<n> cpu=<s> stderr=<hex of the first bytes of the child's stderr>
+// The time limit of a case is a budget of the child's own CPU time (utime+stime from /proc/<pid>/stat), so the verdict does not depend on how
+// busy the machine is; `walltimeout` (a much larger wall-clock guard) only ever means "not judged".
 // The child reports attempts to leave the process (exit, _exit, abort are interposed below) as `X <fn> <code>` lines.
 #ifndef CPPUNIT
 #define CPPUNIT 1
@@ -83,11 +85,16 @@ extern "C" void __cxa_throw(void* obj, void* tinfo, void (*dest)(void*)) {
   real(obj, tinfo, dest);
   for (;;) {}
 }
+static volatile unsigned long g_events = 0;      // PHRQ_io events routed by the child so far (progress indicator for hang diagnosis)
 static void on_sample(int) {
-  static const char m[] = "\n#SAMPLE\n";
-  ssize_t r_ = write(2, m, sizeof m - 1); (void)r_;
-  void* bt[48]; int n = backtrace(bt, 48);
-  backtrace_symbols_fd(bt, n, 2);
+  char m[64]; unsigned long v = g_events; int n = 0; char d[24];
+  do { d[n++] = (char)('0' + v % 10); v /= 10; } while (v && n < 23);
+  int k = 0; const char* h = "\n#SAMPLE ev="; while (*h) m[k++] = *h++;
+  while (n) m[k++] = d[--n];
+  m[k++] = '\n';
+  ssize_t r_ = write(2, m, (size_t)k); (void)r_;
+  void* bt[48]; int nb = backtrace(bt, 48);
+  backtrace_symbols_fd(bt, nb, 2);
 }
 static std::string throw_site() {
   std::string s = g_throw_type[0] ? g_throw_type : "?";
@@ -105,7 +112,7 @@ public:
   size_t after_stop = 0;     // events routed after it
   size_t nerrwarn = 0;       // error + warning events (ew keeps the first 20000)
   std::vector<std::string> ew;   // error / warning events with the engine's simulation number
-  void tick() { if (first_stop >= 0) ++after_stop; ++nall; }
+  void tick() { if (first_stop >= 0) ++after_stop; ++nall; ++g_events; }
   void begin_call() { nall = 0; first_stop = -1; after_stop = 0; nerrwarn = 0; ew.clear(); }
   int sim() { return TestIPhreeqc::simulation(this); }
   virtual void output_msg(const char* s) { tick(); IPhreeqc::output_msg(s); }
@@ -129,7 +136,7 @@ public:
 };
 
 struct Case {
-  std::string id; int timeout = 20; std::string db;
+  std::string id; int timeout = 20; double wall = 0; std::string db;      // timeout: CPU seconds of the child; wall: outer wall-clock guard (0 = 30*timeout+120)
   std::vector<std::vector<std::string> > sw, fn, pre, ops;
   std::string probe;
   std::string cwd;           // working directory of the child (every case has its own: files of different cases never mix)
@@ -316,6 +323,18 @@ static void child_main(const Case& c) {
   fprintf(R, "DONE\n"); fflush(R);
 }
 
+// CPU seconds (user + system) the process has consumed so far; -1 when /proc cannot be read
+static double proc_cpu(pid_t pid) {
+  char path[64]; snprintf(path, sizeof path, "/proc/%d/stat", (int)pid);
+  FILE* f = fopen(path, "r"); if (!f) return -1;
+  char line[1024]; size_t n = fread(line, 1, sizeof line - 1, f); fclose(f); line[n] = 0;
+  char* p = strrchr(line, ')'); if (!p) return -1;
+  unsigned long ut = 0, st = 0; char state;
+  // fields after the command: state ppid pgrp session tty tpgid flags minflt cminflt majflt cmajflt utime stime
+  if (sscanf(p + 1, " %c %*d %*d %*d %*d %*d %*u %*u %*u %*u %*u %lu %lu", &state, &ut, &st) != 3) return -1;
+  return (double)(ut + st) / (double)sysconf(_SC_CLK_TCK);
+}
+
 static void run_case(const Case& c) {
   printf("CASE %s\n", c.id.c_str()); fflush(stdout);
   int pfd[2];
@@ -329,7 +348,7 @@ static void run_case(const Case& c) {
     if (efd >= 0) { dup2(efd, 2); }
     int nul = open("/dev/null", O_WRONLY); if (nul >= 0) dup2(nul, 1);    // OutputAccumulatedLines etc. must not reach the protocol
     struct rlimit rl; rl.rlim_cur = rl.rlim_max = 0; setrlimit(RLIMIT_CORE, &rl);
-    rl.rlim_cur = rl.rlim_max = (rlim_t)(c.timeout + 5); setrlimit(RLIMIT_CPU, &rl);
+    rl.rlim_cur = rl.rlim_max = (rlim_t)(c.timeout + 60); setrlimit(RLIMIT_CPU, &rl);      // backstop only: the parent stops the child at c.timeout CPU seconds
     rl.rlim_cur = rl.rlim_max = (rlim_t)512 << 20; setrlimit(RLIMIT_FSIZE, &rl);
     signal(SIGXFSZ, SIG_IGN);
     signal(SIGUSR1, on_sample);
@@ -345,13 +364,18 @@ static void run_case(const Case& c) {
   // parent: copy the child's lines; enforce the timeout
   std::string buf; char tmp[65536];
   struct timeval t0; gettimeofday(&t0, 0);
-  bool timed_out = false;
+  bool timed_out = false, wall_out = false, half_sampled = false;
+  double cpu = 0;
+  const double wall_limit = c.wall > 0 ? c.wall : 30.0 * c.timeout + 120.0;
   for (;;) {
     struct timeval t; gettimeofday(&t, 0);
     double el = (t.tv_sec - t0.tv_sec) + 1e-6 * (t.tv_usec - t0.tv_usec);
-    if (el > c.timeout) {
+    double cp = proc_cpu(pid); if (cp >= 0) cpu = cp;
+    if (!half_sampled && cpu > 0.5 * c.timeout) { half_sampled = true; kill(pid, SIGUSR1); }      // progress reference for the samples taken at the end
+    if (cpu > c.timeout) {
       // two stack samples 0.4 s apart, then kill: a hang is reported with where the engine was
       timed_out = true; kill(pid, SIGUSR1); usleep(400000); kill(pid, SIGUSR1); usleep(200000); kill(pid, SIGKILL); break; }
+    if (el > wall_limit) { wall_out = true; kill(pid, SIGKILL); break; }                          // never a verdict: reported as not judged
     struct pollfd pf; pf.fd = pfd[0]; pf.events = POLLIN; pf.revents = 0;
     int pr = poll(&pf, 1, 200);
     if (pr > 0) {
@@ -366,9 +390,9 @@ static void run_case(const Case& c) {
   int st = 0; waitpid(pid, &st, 0);
   std::string err;
   if (efd >= 0) { lseek(efd, 0, SEEK_SET); ssize_t n = read(efd, tmp, 12000); if (n > 0) err.assign(tmp, (size_t)n); close(efd); }
-  const char* kind = timed_out ? "timeout" : (WIFSIGNALED(st) ? "signal" : "exit");
+  const char* kind = timed_out ? "timeout" : wall_out ? "walltimeout" : (WIFSIGNALED(st) ? "signal" : "exit");
   int code = WIFSIGNALED(st) ? WTERMSIG(st) : WEXITSTATUS(st);
-  printf("END %s status=%s code=%d stderr=%s\n", c.id.c_str(), kind, code, hx::hex(err).c_str());
+  printf("END %s status=%s code=%d stderr=%s cpu=%.2f\n", c.id.c_str(), kind, code, hx::hex(err).c_str(), cpu);
   fflush(stdout);
 }
 
@@ -379,7 +403,7 @@ int main() {
   while (std::getline(std::cin, line)) {
     std::vector<std::string> w = hx::words(line);
     if (w.empty()) continue;
-    if (w[0] == "case") { c = Case(); c.id = w[1]; c.timeout = w.size() > 2 ? atoi(w[2].c_str()) : 20; have = true; }
+    if (w[0] == "case") { c = Case(); c.id = w[1]; c.timeout = w.size() > 2 ? atoi(w[2].c_str()) : 20; c.wall = w.size() > 3 ? atof(w[3].c_str()) : 0; have = true; }
     else if (!have) continue;
     else if (w[0] == "db") c.db = w[1];
     else if (w[0] == "sw") c.sw.push_back(std::vector<std::string>(w.begin() + 1, w.end()));
